@@ -101,6 +101,36 @@ CLAIMED.update({
             "DESIGN.md 5 C29"),
 })
 
+CLAIMED.update({
+    "C12": ("model_checking",
+            "SchemaBuilder.tla models builder and serializer; the intended round trip is model-checked on every history up to the "
+            "bound over five item universes; each history is replayed on the real builder/serializer (orders, equality, byte-identical "
+            "reserialization, validity); corpus schemas with random splits go through the TLC monitor.",
+            "One known finding (extension discovery order), attributed only when the implementation-shaped model predicts the exact reordering.",
+            "TLA+ state machine of the schema builder + serializer; TLC-enumerated histories replayed; TLC monitor on recorded round trips",
+            "DESIGN.md 5 C12"),
+    "C13": ("model_checking",
+            "Commute and Chunking are model-checked for all histories up to the bound; every history is built three ways on the real "
+            "builder and compared with the model's schema and diagnostics; corpus schemas and executable documents cut at random "
+            "boundaries go through the TLC monitor.",
+            "Diagnostics are compared as multisets (kind, name) against the model and as message multisets between real runs.",
+            "TLA+ state machine; TLC-enumerated histories replayed; TLC monitor",
+            "DESIGN.md 5 C13"),
+    "C16": ("model_checking",
+            "BuiltinScalars.tla (present / refs / valid) with invariants ExactlyUsed, RestoresExactly, IdempotentH model-checked over all "
+            "histories; each replayed on a real Schema with re-validation after every validation; corpus pairs validated twice.",
+            "Histories mutate only Query's fields; String/Boolean are always referenced.",
+            "TLA+ state machine model-checked; histories replayed on the real schema; TLC monitor",
+            "DESIGN.md 5 C16"),
+    "C22": ("model_checking",
+            "Determinism.tla turns hash-ordered iteration sites into permutation choices and TLC proves the observable independent of "
+            "the choice (and refutes the HashSet variant); k independent processes print digests of every output for ~400 inputs "
+            "and TLC's monitor accepts only identical digests.",
+            "Process-level seeds are sampled (k = 4 quick, 16 thorough); the audited site list may be incomplete, the process comparison is not.",
+            "TLA+ nondeterminism model + multi-process digest comparison validated by a TLC monitor",
+            "DESIGN.md 5 C22"),
+})
+
 NOT_APPLICABLE = {}
 
 ALL = ["C%02d" % i for i in range(1, 34)]
